@@ -20,13 +20,13 @@ STRUCT: dict[str, dict] = {}
 REPLAYERS: dict[str, object] = {}
 
 
-def lemma(name, props, solvers=None, timeout=None, expect="unsat", note=""):
+def lemma(name, props, solvers=None, timeout=None, expect="unsat", note="", abstract_strings=False):
     """Register a lemma: fn() runs in a symbolic context and returns the goal (assumptions via
     cur().assume).  expect='sat' marks a cover / must-fail twin."""
 
     def deco(fn):
         LEMMAS[name] = dict(name=name, fn=fn, props=props, solvers=solvers, timeout=timeout,
-                            expect=expect, note=note)
+                            expect=expect, note=note, abstract_strings=abstract_strings)
         return fn
 
     return deco
@@ -125,8 +125,12 @@ class LemmaOb:
 
     def smt(self, getvals=()):
         if self.meta.get("expect") == "sat":
-            return tm.query(self.decls, self.hyps + [self.goal], None, getvals=getvals)
-        return tm.query(self.decls, self.hyps, self.goal, getvals=getvals)
+            text = tm.query(self.decls, self.hyps + [self.goal], None, getvals=getvals)
+        else:
+            text = tm.query(self.decls, self.hyps, self.goal, getvals=getvals)
+        if self.meta.get("abstract_strings"):
+            text = engine.abstract_strings(text)
+        return text
 
 
 def run_lemma(lm) -> list[LemmaOb]:
@@ -145,7 +149,7 @@ def run_lemma(lm) -> list[LemmaOb]:
             if goal is not None:
                 out.append(LemmaOb(f"{lm['name']}/path{k}", list(c.pc), sym.B(goal), decls,
                                    dict(lemma=True, expect=lm["expect"], solvers=lm["solvers"],
-                                        timeout=lm["timeout"])))
+                                        timeout=lm["timeout"], abstract_strings=lm.get("abstract_strings"))))
         except sym.Infeasible:
             pass
         finally:
